@@ -196,6 +196,14 @@ class CallMixin:
             o, nm = args[0], args[1]
             if nm.tag != "str":
                 raise Unsupported("getattr with a non-constant name")
+            if o.tag == "clsof" and len(args) == 2:
+                # getattr(obj.__class__, "<name>"): the function object of the (closed) class table, AttributeError if there is none
+                cls = self.node_class_for(SV("ref", o.z, o.cls), p)
+                defcls, fd = self.src.class_member(cls, nm.z)
+                if fd is None or self.src.is_property(fd):
+                    R.append((p, ExcV("AttributeError", site=f"L{line}/getattr {cls}.{nm.z}")))
+                    return []
+                return [(p, SV("func", ("repo", self.src.qualname(defcls, fd))))]
             RR: list = []
             try:
                 res = self.get_attr(o, nm.z, p, RR, node)
